@@ -42,6 +42,10 @@ EXPLANATION = (
     "binding in both _predict methods. NOT decided: optimality itself, monotonicity of the score, equality of the final score with "
     "the re-evaluated anomalies (consequences by the paper induction)."
 )
+# obligations added during the build phase (seeding rounds, twins, mutation analysis)
+ADDED_IN_BUILD = ' Also: the backtracker is decided for three spellings (while loop that jumps to start-1; guarded append plus reversal; descending for loop with a watermark that starts at >= n, skips positions at or above it and is lowered to the start of a collective anomaly only), with exactness (a point anomaly only when starts[i] == i) and completeness (the silent branch is unsatisfiable for 0 <= starts[i] <= i); every backtracked anomaly of MVCAPA gets its (start, end, components) record (C16.a re-run); C10.c NO-STALE-READ of CAPA / MVCAPA re-run.'
+EXPLANATION = EXPLANATION + ADDED_IN_BUILD
+
 ASSUMPTIONS = [
     "Python's ast module and evaluation-order/argument-binding semantics as implemented in skverif/symex.py",
     "library model table skverif/models.py (argsort, cumsum, argmax, boolean masks, np.isin)",
